@@ -80,6 +80,101 @@ Proof.
   cbn [fst snd]. apply advance_over_mono.
 Qed.
 
+(* ---- strict progress: a successful token moves the position strictly forward ---- *)
+Definition pos_lt (p q : N * N) : Prop := fst p < fst q \/ (fst p = fst q /\ snd p < snd q).
+Lemma pos_lt_le_trans p q r : pos_lt p q -> pos_le q r -> pos_lt p r.
+Proof. unfold pos_lt, pos_le. intros [H1|[H1 H2]] [H3|[H3 H4]]; [left; lia|left; lia|left; lia|right; lia]. Qed.
+Lemma pos_le_lt_trans p q r : pos_le p q -> pos_lt q r -> pos_lt p r.
+Proof. unfold pos_lt, pos_le. intros [H1|[H1 H2]] [H3|[H3 H4]]; [left; lia|left; lia|left; lia|right; lia]. Qed.
+Lemma pos_lt_le p q : pos_lt p q -> pos_le p q.
+Proof. unfold pos_lt, pos_le. intros [H|[H1 H2]]; [left; exact H|right; lia]. Qed.
+Lemma advance_lt l c b : pos_lt (l, c) (advance l c b).
+Proof. unfold advance, pos_lt. destruct (b =? 10); cbn [fst snd]; lia. Qed.
+
+Definition rlt (r r' : reader) : Prop := pos_lt (rpos r) (rpos r').
+
+Lemma consume_lt r b l : rlt r (consume r b l).
+Proof. unfold rlt, consume, rpos. pose proof (advance_lt (rline r) (rcol r) b) as H. destruct (advance (rline r) (rcol r) b). exact H. Qed.
+
+Lemma rlt_then r r1 r2 : rlt r r1 -> Rmono r1 None r2 -> rlt r r2.
+Proof. unfold rlt, Rmono. apply pos_lt_le_trans. Qed.
+
+Lemma rlt_eat b : strict rlt b eat_char.
+Proof.
+  intros r [Hp [l Hl]]. unfold eat_char, r_discard. rewrite Hp, Hl. destruct (rk r); apply consume_lt.
+Qed.
+Lemma rlt_next b : strict rlt b next_char.
+Proof. intros r [Hp [l Hl]]. unfold next_char, r_next. rewrite Hp, Hl. apply consume_lt. Qed.
+
+Lemma fold_advance_lt bs b p : pos_lt p (fold_left (fun q c => advance (fst q) (snd q) c) (b :: bs) p).
+Proof.
+  cbn [fold_left]. eapply pos_lt_le_trans; [|apply fold_advance_le]. destruct p as [l c]. apply advance_lt.
+Qed.
+
+Lemma span_symbol_acc l : forall acc, exists more, fst (span_symbol l acc) = acc ++ more.
+Proof.
+  induction l as [|[b| |e] l IH]; intros acc; cbn [span_symbol]; try (exists []; rewrite app_nil_r; reflexivity).
+  destruct (is_symbol_terminator b); [exists []; rewrite app_nil_r; reflexivity|].
+  destruct (IH (acc ++ [b])) as [more E]. exists (b :: more). rewrite E, <- app_assoc. reflexivity.
+Qed.
+
+Lemma rlt_symbol_rd b fuel scratch : is_symbol_terminator b = false -> strict rlt b (parse_symbol_rd fuel scratch).
+Proof.
+  intros Hb r [Hp [l Hl]]. unfold parse_symbol_rd.
+  assert (Hio : match (x <- scan_symbol_io fuel scratch ;; Scan.as_str x) r with (Ok _, r') => rlt r r' | (Err _, _) => True end).
+  { destruct fuel as [|f]; [exact I|]. cbn [scan_symbol_io].
+    unfold bind at 1. unfold bind at 1. unfold peek, r_peek. rewrite Hp, Hl. rewrite Hb.
+    unfold bind at 1. unfold eat_char. cbn [fst snd].
+    assert (Hd : rlt r (r_discard r)) by (pose proof (rlt_eat b r (conj Hp (ex_intro _ l Hl))) as H; unfold eat_char in H; exact H).
+    pose proof (sat_scan_symbol_io Rmono Rmono_ret Rmono_seq Rmono_fuel mono_peek mono_eat mono_error f (scratch ++ [b]) (r_discard r)) as Hs.
+    unfold R, Rmono in Hs. destruct (scan_symbol_io f (scratch ++ [b]) (r_discard r)) as [[x|e] r1]; cbn [fst snd] in *; [|exact I].
+    pose proof (sat_as_str Rmono Rmono_ret mono_error x r1) as Ha. unfold R, Rmono in Ha.
+    destruct (Scan.as_str x r1) as [[y|e] r2]; cbn [fst snd] in *; [|exact I].
+    eapply pos_lt_le_trans; [|exact Ha]. eapply pos_lt_le_trans; [exact Hd|exact Hs]. }
+  assert (Hsl : match (x <- scan_symbol_slice scratch ;; finish_str x) r with (Ok _, r') => rlt r r' | (Err _, _) => True end).
+  { unfold bind at 1. unfold scan_symbol_slice. rewrite Hl. cbn [span_symbol]. rewrite Hb.
+    destruct (span_symbol_acc l ([] ++ [b])) as [more Em].
+    destruct (span_symbol l ([] ++ [b])) as [scanned rest] eqn:Es. cbn [fst] in Em. subst scanned. cbn [app].
+    set (r1 := advance_over r (b :: more) rest).
+    assert (Hd : rlt r r1).
+    { unfold rlt, r1, advance_over, rpos. pose proof (fold_advance_lt more b (rline r, rcol r)) as H.
+      destruct (fold_left _ (b :: more) (rline r, rcol r)). exact H. }
+    destruct (_ && _); [unfold error; destruct (r_position r1); exact I|].
+    destruct (beq_bytes _ _); [unfold error; destruct (r_position r1); exact I|]. unfold ret.
+    pose proof (sat_finish_str Rmono Rmono_ret mono_error (scratch ++ b :: more) r1) as Ha. unfold R, Rmono in Ha.
+    destruct (finish_str (scratch ++ b :: more) r1) as [[y|e] r2]; cbn [fst snd] in *; [|exact I].
+    eapply pos_lt_le_trans; [exact Hd|exact Ha]. }
+  destruct (rk r); [exact Hsl|exact Hsl|exact Hio].
+Qed.
+
+Theorem token_strict ro alpha fast std_parse fuel b r : at_byte b r ->
+  match parse_token ro alpha fast std_parse fuel b r with
+  | (Ok _, r') => pos_lt (rpos r) (rpos r')
+  | (Err _, _) => True
+  end.
+Proof.
+  exact (strict_parse_token Rmono Rmono_ret Rmono_seq Rmono_fuel mono_peek mono_next mono_eat mono_error mono_peek_error
+           mono_take_run mono_take_symbol fast std_parse ro alpha rlt rlt_then rlt_eat rlt_next rlt_symbol_rd fuel b r).
+Qed.
+
+(* parse_whitespace stops on a pending byte *)
+Lemma ws_at_byte fuel : forall r, match parse_whitespace fuel r with (Ok (Some b), r') => at_byte b r' | _ => True end.
+Proof.
+  induction fuel as [|f IH]; intros r; [exact I|]. cbn [parse_whitespace]. unfold bind at 1.
+  unfold peek, r_peek. destruct (rpending r) eqn:Hp.
+  - destruct (rinput r) as [|[c| |e] l] eqn:Hl; try exact I.
+    destruct (c =? 59).
+    + unfold bind. destruct (skip_comment f r) as [[[|]|e] r1]; try exact I. apply IH.
+    + destruct (memb c [32; 10; 9; 13; 12]); [unfold bind, eat_char; apply IH|].
+      unfold ret. split; [exact Hp|exists l; exact Hl].
+  - destruct (skip_intr (rinput r)) as [|[c| |e] l] eqn:Hl; try exact I.
+    set (r1 := {| rk := rk r; rline := rline r; rcol := rcol r; rpending := true; rinput := EByte c :: l |}).
+    destruct (c =? 59).
+    + unfold bind. destruct (skip_comment f r1) as [[[|]|e] r2]; try exact I. apply IH.
+    + destruct (memb c [32; 10; 9; 13; 12]); [unfold bind, eat_char; apply IH|].
+      unfold ret. split; [reflexivity|exists l; reflexivity].
+Qed.
+
 Section Spans.
   Variable W : bytes.
 
@@ -799,6 +894,233 @@ Section Spans.
             destruct (acc_step lo0 lo mid acc d Hseq Hacc Hqv Hqt) as [A B]. apply (Hk lo0); assumption. }
           intros od. destruct od as [d|]; [apply IHvec|apply Jd_err].
     Qed.
+
+    (* ================= non-empty spans, strict progress =================
+       Every span a datum hands out covers at least one byte: the token it
+       starts with is consumed. (The leaf that ends a cons chain - the end
+       marker, or the atom after a dot - is the one place not covered.) *)
+    Fixpoint nef (tail : bool) (i : span_info) : Prop :=
+      match i with
+      | SPrim sp => if tail then True else pos_lt (sp_start sp) (sp_end sp)
+      | SCons sp a d => (fst (sp_start sp) = 0 \/ pos_lt (sp_start sp) (sp_end sp)) /\ nef false a /\ nef true d
+      | SVec sp l => pos_lt (sp_start sp) (sp_end sp) /\
+                     (fix all (l : list span_info) : Prop := match l with [] => True | x :: l' => nef false x /\ all l' end) l
+      end.
+    Definition all_ne : list span_info -> Prop :=
+      fix all (l : list span_info) : Prop := match l with [] => True | x :: l' => nef false x /\ all l' end.
+    Lemma nef_tail_of i : nef false i -> nef true i.
+    Proof. destruct i; cbn [nef]; auto. Qed.
+    Lemma all_ne_map ds : Forall (fun d => nef false (dinfo d)) ds -> all_ne (map dinfo ds).
+    Proof. induction 1 as [|d ds Hd _ IH]; cbn [map all_ne]; auto. Qed.
+    Lemma ne_chain ms tm : all_ne ms -> nef true tm -> nef true (chain_meta ms tm).
+    Proof.
+      induction ms as [|m ms IH]; cbn [chain_meta all_ne nef]; [auto|]. intros [Hm Hms] Ht.
+      split; [left; reflexivity|]. split; [exact Hm|apply IH; assumption].
+    Qed.
+
+    (* whitespace, the start position, the token: the position moves strictly past start *)
+    Lemma Jd_ws_pos_token {B} f (K : N * N -> token -> PM (option B))
+          (qk : N * N -> token -> N * N -> option B -> N * N -> Prop) (Q : N * N -> option B -> N * N -> Prop) :
+      (forall start tok, Jd (K start tok) (qk start tok)) ->
+      (forall lo hi, pos_le lo hi -> Q lo None hi) ->
+      (forall lo start mid tok b hi, pos_le lo start -> prefix_pos W (fst start) (snd start) -> pos_lt start mid ->
+                                     pos_le mid hi -> qk start tok mid b hi -> Q lo b hi) ->
+      Jd (pbind (liftR (parse_whitespace f)) (fun o =>
+            match o with
+            | None => pret None
+            | Some b => pbind (liftR position) (fun start => pbind (liftR (parse_token ro alpha fast std_parse f b)) (fun tok => K start tok))
+            end)) Q.
+    Proof.
+      intros HK Hnone HQ s Hi. rewrite pbind_unfold.
+      pose proof (T_ws f s Hi) as H1. pose proof (ws_at_byte f (rd s)) as Hat. unfold liftR in H1 |- *.
+      destruct (parse_whitespace f (rd s)) as [[o|e] r1]; [|exact I]. destruct H1 as (Hi1 & L1 & _). cbn [rd] in Hi1, L1.
+      destruct o as [b|].
+      - rewrite pbind_unfold. unfold position at 1. cbn [fst snd rd depth].
+        assert (Hps : prefix_pos W (fst (r_position r1)) (snd (r_position r1))) by (apply position_prefix; exact Hi1).
+        rewrite pbind_unfold. cbn [rd depth].
+        pose proof (T_token f b {| rd := r1; depth := depth s |} Hi1) as H2. unfold liftR in H2. cbn [rd depth] in H2.
+        pose proof (token_strict ro alpha fast std_parse f b r1 Hat) as Hst.
+        destruct (parse_token ro alpha fast std_parse f b r1) as [[tok|e] r2]; [|exact I]. destruct H2 as (Hi2 & L2 & _). cbn [rd] in Hi2, L2.
+        specialize (HK (r_position r1) tok {| rd := r2; depth := depth s |} Hi2).
+        destruct (K (r_position r1) tok {| rd := r2; depth := depth s |}) as [[b0|e] s3]; [|exact I]. destruct HK as (Hi3 & L3 & Hq).
+        cbn [rd] in L3, Hq.
+        split; [exact Hi3|]. split; [eapply pos_le_trans; [exact L1|]; eapply pos_le_trans; [exact L2|exact L3]|].
+        eapply (HQ _ (r_position r1) (rpos r2) tok); eauto.
+      - cbn [pret]. split; [exact Hi1|]. split; [exact L1|]. apply Hnone. exact L1.
+    Qed.
+
+    (* a judgement with a precondition on the reader, for the steps right after parse_whitespace *)
+    Definition Jdp {A} (pre : reader -> Prop) (m : PM A) (post : N * N -> A -> N * N -> Prop) : Prop :=
+      forall s, inv W (rd s) -> pre (rd s) ->
+        match m s with
+        | (POk a, s') => inv W (rd s') /\ pos_le (rpos (rd s)) (rpos (rd s')) /\ post (rpos (rd s)) a (rpos (rd s'))
+        | (PErr _, _) => True
+        end.
+    Lemma Jdp_of_Jd {A} pre (m : PM A) q : Jd m q -> Jdp pre m q.
+    Proof. intros H s Hi _. apply H. exact Hi. Qed.
+    Lemma Jd_ws_cases {B} f (kn : PM B) (ks : N -> PM B) (Q : N * N -> B -> N * N -> Prop) :
+      mono_lo Q -> Jd kn Q -> (forall c, Jdp (at_byte c) (ks c) Q) ->
+      Jd (pbind (liftR (parse_whitespace f)) (fun o => match o with None => kn | Some c => ks c end)) Q.
+    Proof.
+      intros Hmono Hn Hs s Hi. rewrite pbind_unfold.
+      pose proof (T_ws f s Hi) as H1. pose proof (ws_at_byte f (rd s)) as Hat. unfold liftR in *.
+      destruct (parse_whitespace f (rd s)) as [[o|e] r1]; [|exact I]. destruct H1 as (Hi1 & L1 & _). cbn [rd] in *.
+      set (s1 := {| rd := r1; depth := depth s |}) in *.
+      destruct o as [c|].
+      - specialize (Hs c s1 Hi1 Hat). destruct (ks c s1) as [[b|e] s2]; [|exact I]. destruct Hs as (Hi2 & L2 & Hq).
+        split; [exact Hi2|]. split; [eapply pos_le_trans; eauto|]. eapply Hmono; [exact L1|exact Hq].
+      - specialize (Hn s1 Hi1). destruct (kn s1) as [[b|e] s2]; [|exact I]. destruct Hn as (Hi2 & L2 & Hq).
+        split; [exact Hi2|]. split; [eapply pos_le_trans; eauto|]. eapply Hmono; [exact L1|exact Hq].
+    Qed.
+    (* the start position, then the dispatching byte is eaten: strictly past start *)
+    Lemma Jdp_pos_eat_peek {B} c (K : N * N -> option N -> PM B) (Q : N * N -> B -> N * N -> Prop) :
+      (forall start nx, Jd (K start nx) (fun mid b hi => prefix_pos W (fst start) (snd start) -> pos_lt start mid -> Q start b hi)) ->
+      Jdp (at_byte c) (pbind (liftR position) (fun start => pbind (liftR (eat_char ;;; peek)) (fun nx => K start nx))) Q.
+    Proof.
+      intros HK s Hi Hat. rewrite pbind_unfold. unfold liftR at 1, position at 1. cbn [fst snd rd].
+      set (start := r_position (rd s)).
+      assert (Hps : prefix_pos W (fst start) (snd start)) by (apply position_prefix; exact Hi).
+      replace {| rd := rd s; depth := depth s |} with s by (destruct s; reflexivity).
+      rewrite pbind_unfold. pose proof (T_eat_peek s Hi) as H1. unfold liftR in *.
+      pose proof (rlt_eat c (rd s) Hat) as Hst. unfold bind in *. unfold eat_char in *.
+      pose proof (mono_peek (r_discard (rd s))) as Hpk. unfold R, Rmono in Hpk.
+      destruct (peek (r_discard (rd s))) as [[nx|e] r2]; cbn [fst snd] in *; [|exact I]. destruct H1 as (Hi2 & L2 & _). cbn [rd] in *.
+      set (s2 := {| rd := r2; depth := depth s |}) in *.
+      specialize (HK start nx s2 Hi2). destruct (K start nx s2) as [[b|e] s3]; [|exact I]. destruct HK as (Hi3 & L3 & Hq).
+      split; [exact Hi3|]. split; [eapply pos_le_trans; eauto|]. apply Hq; [exact Hps|]. eapply pos_lt_le_trans; [exact Hst|exact Hpk].
+    Qed.
+
+    Definition qn (lo : N * N) (o : option datum) (hi : N * N) : Prop :=
+      match o with Some d => nef false (dinfo d) | None => True end.
+    (* what the continuation after the token establishes, relative to start *)
+    Definition qkn (start : N * N) (tok : token) (mid : N * N) (o : option datum) (hi : N * N) : Prop :=
+      match o with
+      | Some d => forall (Hlt : pos_lt start mid), nef false (dinfo d)
+      | None => True
+      end.
+    Definition qln (acc : list datum) (lo : N * N) (res : list datum * option datum) (hi : N * N) : Prop :=
+      Forall (fun d => nef false (dinfo d)) acc ->
+      Forall (fun d => nef false (dinfo d)) (fst res) /\ match snd res with Some t => nef false (dinfo t) | None => True end.
+    Definition qvecn (acc : list datum) (lo : N * N) (res : list datum) (hi : N * N) : Prop :=
+      Forall (fun d => nef false (dinfo d)) acc -> Forall (fun d => nef false (dinfo d)) res.
+
+    Lemma mono_qln acc : mono_lo (qln acc).  Proof. intros lo lo' res hi _ H. exact H. Qed.
+    Lemma mono_qvecn acc : mono_lo (qvecn acc).  Proof. intros lo lo' res hi _ H. exact H. Qed.
+
+    Lemma list_datum_ne ds tail a b : pos_lt a b -> Forall (fun d => nef false (dinfo d)) ds ->
+      (match tail with Some t => nef false (dinfo t) | None => True end) -> nef false (dinfo (list_datum (ds, tail) a b)).
+    Proof.
+      intros Hab Hds Ht. destruct ds as [|d1 ds]; [exact Hab|].
+      inversion Hds as [|? ? H1 Hrest]; subst. unfold list_datum, list_meta. cbn [dinfo nef mk_span sp_start sp_end].
+      split; [right; exact Hab|]. split; [exact H1|]. apply ne_chain; [apply all_ne_map; exact Hrest|].
+      destruct tail as [t|]; [apply nef_tail_of; exact Ht|exact I].
+    Qed.
+
+    Theorem datums_nonempty fuel :
+      Jd (next_datum fuel) qn /\
+      (forall t acc, Jd (parse_list_meta fuel t acc) (qln acc)) /\
+      (forall t acc, Jd (parse_vector_meta fuel t acc) (qvecn acc)).
+    Proof.
+      induction fuel as [|f (IHv & IHl & IHvec)].
+      - split; [|split]; intros; cbn [Parser.next_datum Parser.parse_list_meta Parser.parse_vector_meta]; apply Jd_fail.
+      - pose proof (datums_spans f) as (Sv & Sl & Svec).
+        split; [|split]; intros; cbn [Parser.next_datum Parser.parse_list_meta Parser.parse_vector_meta].
+        + eapply (Jd_ws_pos_token f _ (fun start tok mid o hi => pos_le mid hi /\ forall (Hlt : pos_lt start mid), qn mid o hi)).
+          2:{ intros lo hi _. exact I. }
+          2:{ intros lo start mid tok b0 hi L1 Hps Hlt L2 [_ Hq]. exact (Hq Hlt). }
+          intros start tok. cbv zeta.
+          assert (Hprim : forall v, Jd (pbind (liftR position) (fun e => pret (Some (prim_datum v start e))))
+                                       (fun mid o hi => pos_le mid hi /\ forall (Hlt : pos_lt start mid), qn mid o hi)).
+          { intros v. apply Jd_after_pos. intros e. apply Jd_ret. intros lo -> He. split; [apply pos_le_refl|]. intros Hlt. exact Hlt. }
+          destruct tok; try apply Hprim.
+          * (* list *)
+            eapply (Jd_nest _ _ _ (qln []) (fun l m2 b hi => hi = m2 /\ b = Some (list_datum l start m2)));
+              [apply IHl|apply T_end_seq| |].
+            { intros l. apply Jd_after_pos. intros e. apply Jd_ret. intros lo -> He. auto. }
+            intros lo lo1 l m1 m2 b0 hi L1 L2 L3 L4 Hp (-> & ->). split.
+            { eapply pos_le_trans; [exact L1|]. eapply pos_le_trans; [exact L2|exact L3]. }
+            intros Hlt. cbn [qn]. destruct (Hp (Forall_nil _)) as [Hels Htail]. destruct l as [ds tail]. cbn [fst snd] in *.
+            apply list_datum_ne; auto. eapply pos_lt_le_trans; [exact Hlt|].
+            eapply pos_le_trans; [exact L1|]. eapply pos_le_trans; [exact L2|exact L3].
+          * (* quotation *)
+            apply Jd_after_pos. intros token_end.
+            eapply (Jd_nest_quote _ _ (fun lo o hi => qv lo o hi /\ qn lo o hi)
+                      (fun o m1 b hi => match o with
+                                        | Some d => hi = m1 /\ b = Some (quotation_datum name d (mk_span start token_end))
+                                        | None => False end)); [apply Jd_and; [exact Sv|exact IHv]| |].
+            { intros o. destruct o as [d|]; [apply Jd_ret; auto|apply Jd_err]. }
+            intros lo lo1 o m1 b0 hi L1 L2 L3 [Hp1 Hp2] Hq -> Hpt. destruct o as [d|]; [|contradiction].
+            destruct Hq as [-> ->]. split; [eapply pos_le_trans; [exact L1|exact L2]|]. intros Hlt. cbn [qn qv] in *.
+            destruct Hp1 as [_ (R1 & R2 & R3 & R4 & R5)].
+            unfold quotation_datum. cbv zeta. cbn [dinfo nef mk_span sp_start sp_end].
+            assert (Hroot : pos_lt (sp_start (info_span (dinfo d))) (sp_end (info_span (dinfo d)))).
+            { destruct (dinfo d) as [sp|sp a dd|sp l]; cbn [nef info_span] in *; [exact Hp2| |apply Hp2].
+              destruct Hp2 as ([H0|H0] & _); [|exact H0]. apply prefix_line in R1. cbn [info_span] in R1. lia. }
+            split; [right|split; [exact Hlt|split; [right; exact Hroot|split; [exact Hp2|exact I]]]].
+            eapply pos_lt_le_trans; [exact Hlt|]. eapply pos_le_trans; [exact L1|].
+            eapply pos_le_trans; [exact R3|exact R4].
+          * (* vector *)
+            eapply (Jd_nest _ _ _ (qvecn []) (fun els m2 b hi => hi = m2 /\
+                       b = Some {| dvalue := Vector (map dvalue els); dinfo := SVec (mk_span start m2) (map dinfo els) |}));
+              [apply IHvec|apply T_end_seq| |].
+            { intros els. apply Jd_after_pos. intros e. apply Jd_ret. intros lo -> He. auto. }
+            intros lo lo1 els m1 m2 b0 hi L1 L2 L3 L4 Hp (-> & ->). split.
+            { eapply pos_le_trans; [exact L1|]. eapply pos_le_trans; [exact L2|exact L3]. }
+            intros Hlt. cbn [qn dinfo nef mk_span sp_start sp_end]. split.
+            -- eapply pos_lt_le_trans; [exact Hlt|]. eapply pos_le_trans; [exact L1|]. eapply pos_le_trans; [exact L2|exact L3].
+            -- apply all_ne_map. apply Hp. constructor.
+          * (* byte vector *)
+            eapply Jd_weaken; [|apply (Jd_bind _ _ (fun _ _ _ => True) (fun _ mid o hi => pos_le mid hi /\ forall (Hlt : pos_lt start mid), qn mid o hi)
+                                       (T_byte_list f close))].
+            { intros lo o hi _ (bs & mid & _ & [Hle Hq] & L1 & L2). split; [eapply pos_le_trans; eauto|].
+              intros Hlt. apply Hq. eapply pos_lt_le_trans; [exact Hlt|exact L1]. }
+            intros bs. apply Hprim.
+        + apply Jd_ws_cases; [apply mono_qln|apply Jd_err|]. intros c.
+          destruct (is_closer c).
+          { apply Jdp_of_Jd. destruct (negb (c =? t)); [apply Jd_err|]. apply Jd_ret. intros lo Hacc. cbn [fst snd]. auto. }
+          destruct (c =? 46).
+          { apply Jdp_pos_eat_peek. intros start nx. destruct (lone_dot nx).
+            - destruct acc as [|x acc'].
+              + apply Jd_after; [apply T_peek|intros lo lo' res hi Hle H Hp Hlt; apply H; [exact Hp|eapply pos_lt_le_trans; eauto]|]. intros o3. destruct o3; apply Jd_err.
+              + eapply Jd_weaken; [|apply (Jd_bind _ _ qn (fun od lo res hi => match od with
+                    | Some cdr => fst res = x :: acc' /\ snd res = Some cdr
+                    | None => False end) IHv)].
+                { intros lo res hi _ (od & mid & Hqn & Hk & L1 & L2) _ _ Hacc.
+                  destruct od as [cdr|]; [|contradiction]. destruct Hk as [E1 E2]. rewrite E1, E2. cbn [qn] in Hqn. auto. }
+                intros od. destruct od as [cdr|]; [|apply Jd_err].
+                apply Jd_after; [apply T_ws| |].
+                { intros lo lo' res hi _ H. exact H. }
+                intros o2. destruct o2 as [c2|]; [|apply Jd_err]. destruct (c2 =? t); [|apply Jd_err].
+                apply Jd_ret. intros lo. cbn [fst snd]. auto.
+            - (* ".name": the datum's span starts at the dot, which has been eaten *)
+              eapply Jd_weaken; [|apply (Jd_bind _ _ (fun _ _ _ => True)
+                  (fun name mid res hi => forall start0, pos_lt start0 mid -> start0 = start ->
+                     Forall (fun d => nef false (dinfo d)) acc ->
+                     Forall (fun d => nef false (dinfo d)) (fst res) /\ match snd res with Some t => nef false (dinfo t) | None => True end)
+                  (T_symbol_suffix f [46]))].
+              { intros lo res hi _ (name & mid & _ & Hk & L1 & L2) Hps Hlt Hacc. apply (Hk start); auto.
+                eapply pos_lt_le_trans; [exact Hlt|exact L1]. }
+              intros name. apply Jd_after_pos. intros e.
+              eapply Jd_weaken; [|apply IHl].
+              intros lo res hi L Hq -> He start0 Hlt -> Hacc. apply Hq. apply Forall_app. split; [exact Hacc|].
+              constructor; [|constructor]. cbn [prim_datum dinfo nef mk_span sp_start sp_end]. exact Hlt. }
+          apply Jdp_of_Jd.
+          eapply Jd_weaken; [|apply (Jd_bind _ _ qn (fun od lo res hi => match od with
+                | Some d => qln (acc ++ [d]) lo res hi
+                | None => False end) IHv)].
+          { intros lo res hi _ (od & mid & Hqn & Hk & L1 & L2) Hacc.
+            destruct od as [d|]; [|contradiction]. cbn [qn] in Hqn. apply Hk. apply Forall_app. split; [exact Hacc|repeat constructor; exact Hqn]. }
+          intros od. destruct od as [d|]; [apply IHl|apply Jd_err].
+        + apply Jd_after; [apply T_ws|apply mono_qvecn|]. intros o. destruct o as [c|]; [|apply Jd_err].
+          destruct (is_closer c).
+          { destruct (negb (c =? t)); [apply Jd_err|]. apply Jd_ret. intros lo Hacc. exact Hacc. }
+          eapply Jd_weaken; [|apply (Jd_bind _ _ qn (fun od lo res hi => match od with
+                | Some d => qvecn (acc ++ [d]) lo res hi
+                | None => False end) IHv)].
+          { intros lo res hi _ (od & mid & Hqn & Hk & L1 & L2) Hacc.
+            destruct od as [d|]; [|contradiction]. cbn [qn] in Hqn. apply Hk. apply Forall_app. split; [exact Hacc|repeat constructor; exact Hqn]. }
+          intros od. destruct od as [d|]; [apply IHvec|apply Jd_err].
+    Qed.
   End Main.
 End Spans.
 
@@ -839,4 +1161,39 @@ Proof.
   - cbn [pret] in E. rewrite pbind_unfold in E.
     destruct (expect_end_p fuel s1) as [[u|e] s2]; cbn [fst pret] in E; [|discriminate]. inversion E; subst d0. exact Hq.
   - unfold liftR, peek_error in E. destruct (r_peek_position (rd s1)). cbn in E. discriminate.
+Qed.
+
+(* every span handed out is non-empty, at the entry point *)
+Theorem datum_from_trait_nonempty ro alpha fast std_parse k inp d :
+  datum_from_trait ro alpha fast std_parse k inp = POk d -> nef false (dinfo d).
+Proof.
+  intros E. unfold datum_from_trait in E. set (W := bytes_in inp). set (fuel := fuel_for inp) in *.
+  pose proof (proj1 (datums_nonempty W ro alpha fast std_parse fuel) (init_state k inp) (inv_init W k inp eq_refl)) as H.
+  unfold expect_datum in E. rewrite !pbind_unfold in E.
+  destruct (next_datum ro alpha fast std_parse fuel (init_state k inp)) as [[o|e] s1]; [|cbn in E; discriminate].
+  destruct H as (Hi & L & Hq). destruct o as [d0|].
+  - cbn [pret] in E. rewrite pbind_unfold in E.
+    destruct (expect_end_p fuel s1) as [[u|e] s2]; cbn [fst pret] in E; [|discriminate]. inversion E; subst d0. exact Hq.
+  - unfold liftR, peek_error in E. destruct (r_peek_position (rd s1)). cbn in E. discriminate.
+Qed.
+
+(* a call that returns a datum moves the reader position strictly forward *)
+Theorem next_datum_progress W ro alpha fast std_parse fuel s : inv W (rd s) ->
+  match next_datum ro alpha fast std_parse fuel s with
+  | (POk (Some d), s') => inv W (rd s') /\ pos_lt (rpos (rd s)) (rpos (rd s'))
+  | (POk None, s') => inv W (rd s')
+  | (PErr _, _) => True
+  end.
+Proof.
+  intros Hi.
+  pose proof (proj1 (datums_nonempty W ro alpha fast std_parse fuel) s Hi) as Hn.
+  pose proof (proj1 (datums_spans W ro alpha fast std_parse fuel) s Hi) as Hs.
+  destruct (next_datum ro alpha fast std_parse fuel s) as [[[d|]|e] s1]; try exact I.
+  - destruct Hn as (Hi1 & _ & Hne). destruct Hs as (_ & _ & [_ (R1 & R2 & R3 & R4 & R5)]). split; [exact Hi1|].
+    cbn [qn] in Hne.
+    assert (Hroot : pos_lt (sp_start (info_span (dinfo d))) (sp_end (info_span (dinfo d)))).
+    { destruct (dinfo d) as [sp|sp a dd|sp l]; cbn [nef info_span] in *; [exact Hne| |apply Hne].
+      destruct Hne as ([H0|H0] & _); [|exact H0]. exfalso. pose proof (fun a sp => prefix_line W a sp _ _ R1) as HH. cbn [info_span] in HH. specialize (HH alpha std_parse). lia. }
+    eapply pos_le_lt_trans; [exact R3|]. eapply pos_lt_le_trans; [exact Hroot|exact R5].
+  - destruct Hn as (Hi1 & _). exact Hi1.
 Qed.
